@@ -1,3 +1,4 @@
 import CobaldVerif.Drive.All
 import CobaldVerif.Props.C06
 import CobaldVerif.Props.C07
+import CobaldVerif.Props.C08
